@@ -34,6 +34,10 @@ Record case := mk {
   cqtype : N;                       (* KE2E: query type *)
   cgroups : list group;
   crcode : N;
+  cmsg : list (N * N);              (* KE2E additional: (owner id, type) of answer ++ authority *)
+  ctargets : list (N * list (N * N * N));  (* NS/MX targets in processing order, visible records *)
+  cextra : list (N * N * N);        (* additional section: (owner id, type, record id) *)
+  cmsgids : list N;                 (* every record of the message, equal records -> equal number *)
   cchi_w : list N; cchi_obs : list N
 }.
 
@@ -137,7 +141,11 @@ Definition group_spec_ok (g : group) : bool :=
 
 Definition is_addr_q (q : N) : bool := (q =? TypeA) || (q =? TypeAAAA) || (q =? TypeANY).
 
-(* the name exists (has visible records) -> NOERROR, also when nothing is served *)
+(* the name exists (has visible records) -> NOERROR, also when nothing is served.
+   Additional section (NS/MX targets): per target and family at most one record,
+   a visible positive-weight record of the target; exactly one if there is such
+   a record and the answer/authority sections hold no address of that owner and
+   family (g_want), none otherwise; no record of the message occurs twice. *)
 Definition e2e_spec_ok (c : case) : bool :=
   forallb group_spec_ok (cgroups c)
   && (if is_addr_q (cqtype c) then
@@ -145,12 +153,13 @@ Definition e2e_spec_ok (c : case) : bool :=
         | [g] => if (length (g_cands g) =? 0)%nat then crcode c =? 3 else crcode c =? 0
         | _ => false
         end
-      else crcode c =? 0).
+      else (crcode c =? 0) && nodupN (cmsgids c)).
 
 (* the model on a hypothetical key assignment (weight 0 -> key 0, else distinct
    positive keys): sizes of the answer / additional section and NXDOMAIN *)
-Definition hyp_rows (g : group) : list (row N N) :=
-  map (fun t => match t with (q, w, i) => mkRow q (if w =? 0 then 0 else i + 1) i end) (g_cands g).
+Definition hyp_rows_of (cs : list (N * N * N)) : list (row N N) :=
+  map (fun t => match t with (q, w, i) => mkRow q (if w =? 0 then 0 else i + 1) i end) cs.
+Definition hyp_rows (g : group) : list (row N N) := hyp_rows_of (g_cands g).
 
 Definition e2e_model_ok (c : case) : bool :=
   if is_addr_q (cqtype c) then
@@ -162,10 +171,12 @@ Definition e2e_model_ok (c : case) : bool :=
     | _ => false
     end
   else
-    forallb (fun g =>
-      match additional rk_lt rk_pos (g_want4 g) (g_want6 g) (hyp_rows g) with
-      | (r6, r4, _) => (length r4 =? length (g_got4 g))%nat && (length r6 =? length (g_got6 g))%nat
-      end) (cgroups c).
+    (* AdditionalSectionForRecords as written: want4/want6 from HasRecord over the
+       message built so far; owners and types of the appended records, in order *)
+    match additional_section rk_lt rk_pos (cmsg c)
+            (map (fun t => (fst t, hyp_rows_of (snd t))) (ctargets c)) with
+    | (es, _, _) => list_eqb pair_eqb (map fst es) (map fst (cextra c))
+    end.
 
 (* ---- KChi (support only): decides only when grossly off (p < 1e-6) ----
    sum_i (o_i*S - n*w_i)^2 / (S*n*w_i) <= T(df), evaluated without division;
